@@ -84,8 +84,8 @@ func (raceStream) Generate(rng *rand.Rand, tier string, emit func(Case)) {
 	// file that vanishes between the listing and the reading must not take anything else with it (the removed files
 	// sort before the one that flips, so whatever is skipped after them shows)
 	for _, auto := range []bool{false, true} {
-		emit(Case{"op": "race", "ops": strs2any([]string{"Refresh", "RemoveSpec", "WriteSpec", "RemoveSpec", "WriteSpec", "ListDevices", "GetVendorSpecs"}),
-			"iters": 4 * iters, "auto": auto, "seed": rng.Int63()})
+		emit(Case{"op": "race", "ops": strs2any([]string{"RefreshList", "Churn", "Churn", "Churn", "Churn", "Churn", "Churn"}),
+			"iters": iters, "millis": map[bool]int{false: 6000, true: 2000}[auto], "auto": auto, "seed": rng.Int63()})
 	}
 	// everything at once
 	n := 2
@@ -227,6 +227,7 @@ func childRacer(args []string) int {
 		Auto       bool     `json:"auto"`
 		NoDirs     bool     `json:"nodirs"`
 		MissingDir bool     `json:"missingdir"`
+		Millis     int      `json:"millis"`
 		Seed       int64    `json:"seed"`
 	}
 	if err := json.Unmarshal([]byte(args[0]), &c); err != nil {
@@ -323,7 +324,8 @@ func childRacer(args []string) int {
 		wg.Add(1)
 		go func(ti int, op string) {
 			defer wg.Done()
-			for it := 0; it < c.Iters; it++ {
+			until := time.Now().Add(time.Duration(c.Millis) * time.Millisecond)
+			for it := 0; (c.Millis == 0 && it < c.Iters) || (c.Millis > 0 && time.Now().Before(until)); it++ {
 				atomic.AddInt64(&calls, 1)
 				switch op {
 				case "Configure":
@@ -414,6 +416,23 @@ func childRacer(args []string) int {
 						}
 					}
 					_ = extra
+				case "RefreshList":
+					// a rescan and the listing that follows it (with no other rescan in the set, what the listing shows
+					// is what that scan published)
+					_ = cache.Refresh()
+					classify("Refresh+ListDevices", cache.ListDevices())
+				case "Churn":
+					// the life of a transient Spec: written, used for a moment, removed
+					own := &specs.Spec{Version: specs.CurrentVersion, Kind: fmt.Sprintf("churn%d.com/dev", ti), Devices: []specs.Device{{Name: "x",
+						ContainerEdits: specs.ContainerEdits{Env: []string{fmt.Sprintf("CHURN=%d", ti)}}}}}
+					name := fmt.Sprintf("churn-%d-%d.json", ti, it%3)
+					if err := cache.WriteSpec(own, name); err != nil {
+						mix("Churn: WriteSpec failed: %v", err)
+					}
+					time.Sleep(time.Duration(50+(it%7)*40) * time.Microsecond)
+					if err := cache.RemoveSpec(name); err != nil {
+						mix("Churn: RemoveSpec failed: %v", err)
+					}
 				case "RemoveSpec":
 					_ = cache.RemoveSpec(fmt.Sprintf("extra-%d.yaml", (ti+1)%len(c.Ops)))
 				}
